@@ -45,25 +45,31 @@ Theorem prv_register_from_source sx st row type c flags :
              R.rs_ids := id_of_row sx type row :: R.rs_ids st;
              R.rs_new := filled sx row type c flags |}).
 Proof.
-  intros Ha Hv Hf Hn. unfold GR.prv_register, R.need, R.bind_. unfold R.bind, R.eval, R.ite, R.fail, R.ret.
-  cbn [GR.get_id_safe is_null negb]. unfold GR.get_id, R.get_prv__nrows, R.find_prv_chan.
+  intros Ha Hv Hf Hn. destruct st as [bay ids new]. cbn [R.rs_ids R.rs_bay] in *. unfold R.valid in Hv. cbn [R.rs_bay] in Hv.
+  unfold GR.prv_register, R.need, R.bind_. unfold R.bind, R.eval, R.ite, R.fail, R.ret.
+  cbn [GR.get_id_safe is_null negb]. unfold GR.get_id, R.get_prv__nrows, R.find_prv_chan. cbn [R.rs_ids].
   change (type * R.rn_nrows sx + row) with (id_of_row sx type row). rewrite Hn. cbn [is_null negb].
-  unfold R.calloc_ptr_rchan. rewrite Ha. cbn [is_null negb]. rewrite check_flags_from_source, Hf.
-  unfold R.set_prv_chan_id, R.set_prv_chan_chan, R.set_prv_chan_row_base1, R.set_prv_chan_type, R.set_prv_chan_prv,
-    R.set_prv_chan_last_value, R.set_prv_chan_last_value_set, R.set_prv_chan_flags, R.upd_new, R.value_null, R.void_of_ptr_rchan.
-  cbn [R.rs_new R.with_new R.rc_id R.rc_chan R.rc_row_base1 R.rc_type R.rc_prv R.rc_last R.rc_last_set R.rc_flags R.rchan0].
-  unfold R.bay_add_cb, R.fn_cb_prv. change (cast_uint32 GR.c_BAY_CB_EMIT =? 1) with true. cbn [negb].
-  assert (Hv' : R.valid (R.with_new (R.with_new (R.with_new (R.with_new (R.with_new (R.with_new (R.with_new (R.with_new (R.with_new st R.rchan0)
-     {| R.rc_id := id_of_row sx type row; R.rc_chan := None; R.rc_row_base1 := 0; R.rc_type := 0; R.rc_prv := None; R.rc_last := None; R.rc_last_set := 0; R.rc_flags := 0 |})
-     {| R.rc_id := id_of_row sx type row; R.rc_chan := Some c; R.rc_row_base1 := 0; R.rc_type := 0; R.rc_prv := None; R.rc_last := None; R.rc_last_set := 0; R.rc_flags := 0 |})
-     {| R.rc_id := id_of_row sx type row; R.rc_chan := Some c; R.rc_row_base1 := row + 1; R.rc_type := 0; R.rc_prv := None; R.rc_last := None; R.rc_last_set := 0; R.rc_flags := 0 |})
-     {| R.rc_id := id_of_row sx type row; R.rc_chan := Some c; R.rc_row_base1 := row + 1; R.rc_type := type; R.rc_prv := None; R.rc_last := None; R.rc_last_set := 0; R.rc_flags := 0 |})
-     {| R.rc_id := id_of_row sx type row; R.rc_chan := Some c; R.rc_row_base1 := row + 1; R.rc_type := type; R.rc_prv := Some tt; R.rc_last := None; R.rc_last_set := 0; R.rc_flags := 0 |})
-     {| R.rc_id := id_of_row sx type row; R.rc_chan := Some c; R.rc_row_base1 := row + 1; R.rc_type := type; R.rc_prv := Some tt; R.rc_last := None; R.rc_last_set := 0; R.rc_flags := 0 |})
-     {| R.rc_id := id_of_row sx type row; R.rc_chan := Some c; R.rc_row_base1 := row + 1; R.rc_type := type; R.rc_prv := Some tt; R.rc_last := None; R.rc_last_set := 0; R.rc_flags := 0 |})
-     (filled sx row type c flags)) c = true) by exact Hv.
-  unfold filled in Hv'. rewrite Hv', Ha. cbn [negb Z.eqb is_null].
-  unfold R.HASH_ADD_LONG_prv_channels, R.with_ids, R.with_bay, R.with_new, R.ecb_of, ecb_for, filled.
+  unfold R.calloc_ptr_rchan, R.with_new. rewrite Ha. cbn [is_null negb R.rs_bay R.rs_ids R.rs_new]. rewrite check_flags_from_source, Hf.
+  (* one field setter at a time, projections reduced after each: the struct stays an explicit record *)
+  unfold R.set_prv_chan_id, R.upd_new, R.with_new.
+  cbn [R.rs_new R.rs_bay R.rs_ids R.with_new R.rc_id R.rc_chan R.rc_row_base1 R.rc_type R.rc_prv R.rc_last R.rc_last_set R.rc_flags R.rchan0].
+  unfold R.set_prv_chan_chan, R.upd_new, R.with_new.
+  cbn [R.rs_new R.rs_bay R.rs_ids R.with_new R.rc_id R.rc_chan R.rc_row_base1 R.rc_type R.rc_prv R.rc_last R.rc_last_set R.rc_flags R.rchan0].
+  unfold R.set_prv_chan_row_base1, R.upd_new, R.with_new.
+  cbn [R.rs_new R.rs_bay R.rs_ids R.with_new R.rc_id R.rc_chan R.rc_row_base1 R.rc_type R.rc_prv R.rc_last R.rc_last_set R.rc_flags R.rchan0].
+  unfold R.set_prv_chan_type, R.upd_new, R.with_new.
+  cbn [R.rs_new R.rs_bay R.rs_ids R.with_new R.rc_id R.rc_chan R.rc_row_base1 R.rc_type R.rc_prv R.rc_last R.rc_last_set R.rc_flags R.rchan0].
+  unfold R.set_prv_chan_prv, R.upd_new, R.with_new.
+  cbn [R.rs_new R.rs_bay R.rs_ids R.with_new R.rc_id R.rc_chan R.rc_row_base1 R.rc_type R.rc_prv R.rc_last R.rc_last_set R.rc_flags R.rchan0].
+  unfold R.set_prv_chan_last_value, R.upd_new, R.value_null, R.with_new.
+  cbn [R.rs_new R.rs_bay R.rs_ids R.with_new R.rc_id R.rc_chan R.rc_row_base1 R.rc_type R.rc_prv R.rc_last R.rc_last_set R.rc_flags R.rchan0].
+  unfold R.set_prv_chan_last_value_set, R.upd_new, R.with_new.
+  cbn [R.rs_new R.rs_bay R.rs_ids R.with_new R.rc_id R.rc_chan R.rc_row_base1 R.rc_type R.rc_prv R.rc_last R.rc_last_set R.rc_flags R.rchan0].
+  unfold R.set_prv_chan_flags, R.upd_new, R.with_new.
+  cbn [R.rs_new R.rs_bay R.rs_ids R.with_new R.rc_id R.rc_chan R.rc_row_base1 R.rc_type R.rc_prv R.rc_last R.rc_last_set R.rc_flags R.rchan0].
+  unfold R.bay_add_cb, R.fn_cb_prv, R.void_of_ptr_rchan, R.valid. change (cast_uint32 GR.c_BAY_CB_EMIT =? 1) with true.
+  cbn [negb R.rs_bay]. rewrite Hv, Ha. cbn [negb Z.eqb is_null].
+  unfold R.HASH_ADD_LONG_prv_channels, R.with_ids, R.with_bay, R.ecb_of, ecb_for, filled.
   cbn [R.rs_bay R.rs_ids R.rs_new R.rc_id R.rc_row_base1 R.rc_type R.rc_flags].
   replace (row + 1 - 1) with row by lia. reflexivity.
 Qed.
